@@ -1,3 +1,4 @@
+import LitexModel.Namer.Ident
 /-
   C02 — model of `litex/gen/fhdl/namer.py : SignalNamespace` (the final, per-base-name numbering stage).
 
@@ -61,33 +62,67 @@ def answers (kw : List String) (base : SigId → String) (reqs : List SigId) : L
 def Ns.nameOf (ns : Ns) (base : SigId → String) (s : SigId) : Option String :=
   (ns.sigs s).map (suffixed (base s))
 
-/-! ### Legal identifiers: `[A-Za-z_][A-Za-z0-9_]*` -/
-
-def isIdStart (c : Char) : Bool := c.isAlpha || c == '_'
-def isIdChar (c : Char) : Bool := c.isAlphanum || c == '_'
-
-def isIdentL : List Char → Bool
-  | [] => false
-  | c :: cs => isIdStart c && cs.all isIdChar
-
-def isIdent (s : String) : Bool := isIdentL s.toList
-
-/-- The text ends in `_<digits>` with at least one digit (the shape of a generated suffix). -/
-def endsInSuffixL (l : List Char) : Bool :=
-  let r := l.reverse
-  let ds := r.takeWhile Char.isDigit
-  !ds.isEmpty && (r.drop ds.length).head? == some '_'
-
-def endsInSuffix (s : String) : Bool := endsInSuffixL s.toList
-
-/-- Every entry of a keyword table is a non-empty identifier without blanks and none ends in `_<digits>`. -/
-def kwWellformed (kw : List String) : Bool := kw.all fun k => isIdent k && !endsInSuffix k
-
 /-- Decidable side condition of `getName_injective_partial`: no requested base name equals another requested
-    base name, or a keyword, followed by `_k` for a suffix number `k` that the namespace can hand out
-    (`1 ≤ k ≤ number of requests`). -/
-def noSuffixShapedBase (kw : List String) (bases : List String) : Bool :=
-  bases.all fun b => (bases ++ kw).all fun b' =>
+    base name followed by `_k` for a suffix number `k` that the namespace can hand out
+    (`1 ≤ k ≤ number of requests`).  (A reserved word counts as soon as some signal carries it as base.) -/
+def noSuffixShapedBase (bases : List String) : Bool :=
+  bases.all fun b => bases.all fun b' =>
     (List.range bases.length).all fun k => b != b' ++ "_" ++ toString (k + 1)
+
+/-! ### The repaired `get_name` (proposed fix F7: skip numbered candidates that are already in use)
+
+      n = self.sigs.get(sig)
+      if n is None:
+          n = self.counts.get(sig_name, 0)
+          while n > 0 and f"{sig_name}_{n}" in self.counts:      # + skip candidates already in use
+              n += 1                                             # +
+          self.sigs[sig] = n
+          self.counts[sig_name] = n + 1
+          if n > 0:                                              # + a numbered name is in use from now on
+              self.counts[f"{sig_name}_{n}"] = 1                 # +
+
+  The dictionaries are finite maps here (association lists, newest binding first) because the loop
+  terminates only for that reason. -/
+
+structure NsF where
+  counts : List (String × Nat)
+  sigs   : List (SigId × Nat)
+  deriving Repr
+
+/-- `self.counts.get(b, 0)` -/
+def NsF.count (ns : NsF) (b : String) : Nat := (ns.counts.lookup b).getD 0
+/-- `b in self.counts` -/
+def NsF.used (ns : NsF) (b : String) : Bool := (ns.counts.lookup b).isSome
+
+def NsF.init (kw : List String) : NsF := { counts := kw.map fun k => (k, 1), sigs := [] }
+
+/-- The `while` loop, started at `n`; `fuel` bounds the number of iterations (one more than the number of
+    dictionary keys always suffices, see `skipUsed_free`). -/
+def skipUsed (ns : NsF) (b : String) : Nat → Nat → Nat
+  | 0, n => n
+  | fuel + 1, n => if n > 0 && ns.used (suffixed b n) then skipUsed ns b fuel (n + 1) else n
+
+def getNameFixed (ns : NsF) (b : String) (s : SigId) : NsF × String :=
+  match ns.sigs.lookup s with
+  | some n => (ns, suffixed b n)
+  | none =>
+    let n := skipUsed ns b (ns.counts.length + 1) (ns.count b)
+    let counts₁ := (b, n + 1) :: ns.counts
+    let counts₂ := if n > 0 then (suffixed b n, 1) :: counts₁ else counts₁
+    ({ counts := counts₂, sigs := (s, n) :: ns.sigs }, suffixed b n)
+
+def runFromF (base : SigId → String) (ns : NsF) : List SigId → NsF
+  | [] => ns
+  | s :: rest => runFromF base (getNameFixed ns (base s) s).1 rest
+
+def answersFromF (base : SigId → String) (ns : NsF) : List SigId → List (SigId × String)
+  | [] => []
+  | s :: rest => (s, (getNameFixed ns (base s) s).2) :: answersFromF base (getNameFixed ns (base s) s).1 rest
+
+def runFixed (kw : List String) (base : SigId → String) (reqs : List SigId) : NsF :=
+  runFromF base (NsF.init kw) reqs
+
+def answersFixed (kw : List String) (base : SigId → String) (reqs : List SigId) : List (SigId × String) :=
+  answersFromF base (NsF.init kw) reqs
 
 end Litex.Namer
